@@ -18,7 +18,7 @@ ROCQ = os.path.join(VERIF, "rocq")
 WORK = os.path.join(VERIF, "work")
 EVID = os.path.join(VERIF, "evidence")
 PY = "/venv/bin/python"
-NCPU = min(16, os.cpu_count() or 4)
+NCPU = int(os.environ.get("VERIF_NCPU", min(16, os.cpu_count() or 4)))
 
 FORBIDDEN = re.compile(r"\b(Admitted|admit|Axiom|Axioms|Parameter|Parameters|Conjecture|Hypothesis|Variable|"
                        r"Unset Guard|bypass_check|type-in-type|impredicative-set|Admit Obligations)\b")
